@@ -21,6 +21,9 @@ func init() {
 
 func c02() []*Ob {
 	return []*Ob{
+		{Prop: "C02", ID: "C02.12", Engine: "SIBLING(mirror)", Floor: 3,
+			Desc:  "a posting list that continues into the next LIDs block is read to its end: the ascending and descending block iterators of a sealed fraction stop only on the bound that lies ahead of them (shared rule with C03.7) — stopping on the other bound drops the in-range postings of the following blocks, the search returns too few ids and a NOT over that leaf too many",
+			Check: shared("C03.7")},
 		{Prop: "C02", ID: "C02.1", Engine: "ENUM", Floor: 1,
 			Desc: "operator and token coverage: processor.buildEvalTree handles every concrete type the parser stores into ASTNode.Value and every logical operator constant",
 			Check: func(c *Ctx) {
